@@ -1,3 +1,4 @@
+import copy
 import numpy as np
 import pandas as pd
 from ..entities.paramStruct import ParamStruct
@@ -43,6 +44,9 @@ def read_model_parameters(
     # create param_struct object
     param_struct = ParamStruct()
 
+    # work on a private copy: the profile is deepened to suit the crop below, and
+    # the user's Soil object may be passed to other models (with other crops)
+    soil = copy.deepcopy(soil)
     soil.fill_nan()
 
     # Assign soil object to param_struct
